@@ -58,7 +58,9 @@ Definition addr_eqb (a b : addr) : bool :=
 
 Record cfg := { c_id : N; c_parse : pfault; c_effs : list effect; c_addrs : list addr }.
 
-Inductive mode := Load | Validate | Reload | Sigusr1.
+(* Execute = ValidateAndExecuteDirectives(justValidate = false) driven through the API without starting
+   servers; like a validation it ends after the directives (parsing callbacks have no global effect here) *)
+Inductive mode := Load | Validate | Reload | Sigusr1 | Execute.
 Inductive op := OAttempt (m : mode) (c : cfg) | OWrite (f : N) (h : htfile).
 
 (* ---------------------------------------------------------------- process-global state *)
@@ -268,6 +270,7 @@ Definition attempt (m : mode) (step : N) (e : env) (c : cfg) (g : gstate) : outc
   | Validate => do_validate step e c g
   | Reload => do_reload step e c g
   | Sigusr1 => do_sigusr1 step e c g
+  | Execute => do_validate step e c g
   end.
 
 (* ---------------------------------------------------------------- histories *)
@@ -304,7 +307,7 @@ Definition eff_valid_v (e : env) (x : effect) : bool :=
   match x with ELog _ _ _ => true | _ => eff_valid e x end.
 Definition attempt_valid (m : mode) (e : env) (c : cfg) : bool :=
   match m with
-  | Validate => parse_ok c && forallb (eff_valid_v e) (c_effs c)
+  | Validate | Execute => parse_ok c && forallb (eff_valid_v e) (c_effs c)
   | _ => cfg_valid e c
   end.
 
@@ -476,7 +479,7 @@ Definition wf (g : gstate) : Prop := forall i, In i (g_insts g) -> srv_wf (i_ser
 Definition harmless (m : mode) (c : cfg) : bool :=
   (match m with Sigusr1 => true | _ => no_on (c_effs c) end)
   && no_auth (c_effs c)
-  && (match m with Validate => true | _ => no_log (c_effs c) && listen_safe (c_addrs c) end).
+  && (match m with Validate | Execute => true | _ => no_log (c_effs c) && listen_safe (c_addrs c) end).
 
 Fixpoint attempts_failed (h : list op) (rs : list outcome) : Prop :=
   match h, rs with
